@@ -709,7 +709,8 @@ def _properties_as_output_fields(ctx):
         for props in (("total_sum", "label_"), ("label_", "total_sum"), ("total_sum",)):
             turn += 1
             dt, sc = MODES[turn % len(MODES)]
-            recipe = [with_property(_PropM, p, {'total_sum': int, 'label_': typing.List[str]}[p]) for p in props] + [name_mapping(_PropM, **opts)]   # explicit types: this module's annotations are strings
+            # every second turn leaves the type to inference: this module's annotations are strings (defect #116: the string was taken for the type)
+            recipe = [with_property(_PropM, p, *([{'total_sum': int, 'label_': typing.List[str]}[p]] if turn % 2 else [])) for p in props] + [name_mapping(_PropM, **opts)]
             twin_skip = [p for p in ("total_sum", "label_") if p not in props]
             topts = dict(opts)   # one provider for the twin: options of an earlier name_mapping would shadow the later one's
             if twin_skip and "only" in topts:
